@@ -76,12 +76,14 @@ C_NoPanic(e) == e.panic = ""
 \* SendDeadlineRace (a batch of rounds, summarised): n rounds, pending = rounds in which SendTimeout's answer differed from what
 \* the receiver saw ("return true exactly when the value was handed to the channel")
 C_SendDeadline(e) == e.op = "SendDeadlineRace" => e.pending = 0
-All(e) == C_SendDeadline(e) /\ C_CloseRace(e) /\ C_RecvRace(e) /\ C_SendRace(e) /\ C_NoPanic(e) /\ C_NeverBlocks(e) /\ C_Queued(e) /\ C_QueuedPending(e) /\ C_Outcome(e) /\ C_SendConserve(e) /\ C_RecvConserve(e) /\ C_Unlimited(e)
+\* (stalled: the driver's heartbeat showed that the process did not run for a quarter of a second or more during every one of five
+\*  attempts at this scenario - its timing margins mean nothing then, and nothing is concluded from it)
+All(e) == e.stalled \/ (C_SendDeadline(e) /\ C_CloseRace(e) /\ C_RecvRace(e) /\ C_SendRace(e) /\ C_NoPanic(e) /\ C_NeverBlocks(e) /\ C_Queued(e) /\ C_QueuedPending(e) /\ C_Outcome(e) /\ C_SendConserve(e) /\ C_RecvConserve(e) /\ C_Unlimited(e))
 TInit == l = 1
 Step == l <= Len(Trace) /\ l' = l + 1 /\ (Gate => All(Ev))
 TSpec == TInit /\ [][Step]_vars
 Obs == Trace[l - 1]
-Chk == ~Gate /\ l > 1
+Chk == ~Gate /\ l > 1 /\ ~Trace[l - 1].stalled
 I_NoPanic == Chk => C_NoPanic(Obs)
 I_NeverBlocks == Chk => C_NeverBlocks(Obs)
 I_Queued == Chk => C_Queued(Obs)
